@@ -225,9 +225,30 @@ pub fn atom_step(step: &str, text: &str, index: u64) {
     }
 }
 
+static HELD_TABLE: Mutex<Option<std::sync::Arc<crate::atom_table::AtomTable>>> = Mutex::new(None);
+
+/// Keep the process-wide atom table alive (creating it if needed) until `atom_table_release`.
+pub fn atom_table_hold() {
+    let mut g = HELD_TABLE.lock().unwrap_or_else(|e| e.into_inner());
+    if g.is_none() {
+        *g = Some(crate::atom_table::AtomTable::new().expect("atom table"));
+    }
+}
+
+/// Drop the hold; when no Machine is alive either, the next hold creates a fresh table.
+pub fn atom_table_release() {
+    *HELD_TABLE.lock().unwrap_or_else(|e| e.into_inner()) = None;
+}
+
 /// Intern `text` in the process-wide atom table; returns the atom's index and its text read back.
 pub fn intern(text: &str) -> (u64, String) {
-    let tbl = crate::atom_table::AtomTable::new().expect("atom table");
+    let tbl = {
+        let g = HELD_TABLE.lock().unwrap_or_else(|e| e.into_inner());
+        match g.as_ref() {
+            Some(t) => t.clone(),
+            None => crate::atom_table::AtomTable::new().expect("atom table"),
+        }
+    };
     let a = crate::atom_table::AtomTable::build_with(&tbl, text);
     (a.index, a.as_str().to_string())
 }
